@@ -225,6 +225,19 @@ func (s *Stream) sendMessageWithEnd(ctx context.Context, data []byte, end byte) 
 		return fmt.Errorf("message too large: %d bytes (max %d)", len(data), MaxMessageSize)
 	}
 
+	// The receiver bounds the WIRE length of a frame by MaxMessageSize, and
+	// encryption adds an auth tag (and, on the first frame, the IV). A payload
+	// that fits in cleartext but not once protected is sent as two frames, so a
+	// frame the sender accepts is never rejected by the peer.
+	if s.gcm != nil && s.encrypted {
+		if limit := MaxMessageSize - s.calculateEncryptedSize(0); len(data) > limit {
+			if err := s.sendMessageWithEnd(ctx, data[:limit], EndFlagPartial); err != nil {
+				return err
+			}
+			return s.sendMessageWithEnd(ctx, data[limit:], end)
+		}
+	}
+
 	var frame []byte
 	var finalHeader [NormalHeaderSize]byte // Use array to avoid heap allocation
 
